@@ -2,6 +2,7 @@
    Property theorems only (Proofs/LinksProofs.v, Proofs/CounterProofs.v). *)
 From SwimV Require Import Model.Links Proofs.LinksProofs.
 From SwimV Require Model.Counter Proofs.CounterProofs.
+From SwimV Require Model.LinkReports Proofs.LinkReportsProofs.
 
 (* Every registry state reachable by any sequence of register / link / unlink / remote removal /
    lane removal / remove-all / counting / snapshot operations (lane ids fresh at registration, as
@@ -52,3 +53,21 @@ Theorem C20_counters_lose_nothing : forall sc s,
   (Counter.value (Counter.exec s sc) + Counter.snapped (Counter.exec s sc)
    = Counter.added (Counter.exec s sc))%N.
 Proof. exact CounterProofs.counters_lose_nothing. Qed.
+
+(* the write task (Model/Uplinks.v, Model/LinkReports.v): after any sequence of link / unlink requests, lane events,
+   write completions, lane failures, unlink-all and remote disconnections every recorded link belongs to a remote that
+   is attached ... *)
+Theorem C20_write_task_links_are_live : forall nl ops,
+  LinkReportsProofs.links_live (LinkReportsProofs.wrun_state (Uplinks.wstate0 nl) ops).
+Proof. exact LinkReportsProofs.links_live_reachable. Qed.
+
+(* ... so the link counts shown for every lane and for the agent are the numbers of remotes actually linked *)
+Theorem C20_write_task_reports_true_counts : forall nl ops,
+  let w := LinkReportsProofs.wrun_state (Uplinks.wstate0 nl) ops in LinkReports.report w = LinkReports.true_report w.
+Proof. exact LinkReportsProofs.reported_counts_are_true. Qed.
+
+(* a remote that disconnects takes all its links with it *)
+Theorem C20_removed_remote_has_no_links : forall nl ops r,
+  let w := LinkReportsProofs.wrun_state (Uplinks.wstate0 nl) (ops ++ [Uplinks.ORemoveRemote r]) in
+  forall l, Uplinks.linked l r (Uplinks.w_links w) = false.
+Proof. exact LinkReportsProofs.removed_remote_has_no_links. Qed.
